@@ -78,16 +78,32 @@ func runC02(c *Ctx) {
 		fn := p.Fn("sio", a.fn)
 		cs := CallsTo(Calls(fn), a.callee)
 		name := "sio." + a.fn
-		if len(cs) != 1 {
-			c.Ob("C02-D1", name+"/single-enqueue", fn.Pos(), false, fmt.Sprintf("expected exactly one enqueue call, found %d", len(cs)))
+		if len(cs) == 0 {
+			c.Ob("C02-D1", name+"/single-enqueue", fn.Pos(), false, "no enqueue call found")
 			continue
 		}
-		arg := cs[0].Arg(0)
-		t := Term(arg)
-		mk, isMake := arg.(*ssa.MakeSlice)
-		okArg := isMake && Term(mk.Len) == a.lenOf
-		c.Ob("C02-D1", name+"/all-frames", cs[0].Pos(), okArg, "enqueue receives "+t+" (expected the slice made with "+a.lenOf+" elements, i.e. every frame of the packet)")
-		c.Ob("C02-D1", name+"/not-in-loop", cs[0].Pos(), !inLoop(cs[0].Instr.Block()) && !cs[0].IsGo(), "the enqueue call is inside a loop or asynchronous: frames of one packet could interleave with another packet's")
+		// a producer may have more than one enqueue site (forced control packets, the connected path): no path
+		// passes through two of them, and each receives the whole packet
+		twice := false
+		for i, x := range cs {
+			for j, y := range cs {
+				if i != j {
+					if r, _ := CanReachAvoiding(fn, x.Instr, func(in ssa.Instruction) bool { return in == y.Instr }, nil); r {
+						twice = true
+					}
+				}
+			}
+		}
+		c.Ob("C02-D1", name+"/single-enqueue", cs[0].Pos(), !twice, fmt.Sprintf("a path passes through two of the %d enqueue calls: the frames of one packet would be queued twice or in pieces", len(cs)))
+		for i, x := range cs {
+			suffix := ""
+			if i > 0 {
+				suffix = fmt.Sprintf("#%d", i+1)
+			}
+			okArg, _ := wholePacketArg(x.Arg(0), a.lenOf)
+			c.Ob("C02-D1", name+"/all-frames"+suffix, x.Pos(), okArg, "enqueue receives "+Term(x.Arg(0))+" (expected the slice made with "+a.lenOf+" elements, i.e. every frame of the packet, at most with older frames put in front in one piece)")
+			c.Ob("C02-D1", name+"/not-in-loop"+suffix, x.Pos(), !inLoop(x.Instr.Block()) && !x.IsGo(), "the enqueue call is inside a loop or asynchronous: frames of one packet could interleave with another packet's")
+		}
 		// every element of the slice is filled before the enqueue: stores into the slice happen at index 0 and i+1 — checked by the bounds prover in C10; here: no other enqueue-like call between
 	}
 	// who may call packetQueue.add / Manager.packet / serverConn.packet
@@ -99,11 +115,32 @@ func runC02(c *Ctx) {
 		fn := p.Fn("sio", "clientSocket._sendBuffers")
 		li := Locks(fn)
 		sts := findInstrs(fn, storePred(`s\.sendBuffer`))
-		if len(sts) != 1 {
-			c.Ob("C02-D1", "sio.clientSocket._sendBuffers/offline-append", fn.Pos(), false, fmt.Sprintf("expected exactly one store to s.sendBuffer, found %d", len(sts)))
-		} else {
-			v := Term(sts[0].(*ssa.Store).Val)
-			c.Ob("C02-D1", "sio.clientSocket._sendBuffers/offline-append", sts[0].Pos(), strings.HasPrefix(v, "append(s.sendBuffer, make(") && li.HoldsW(sts[0], "s.sendBufferMu") && !inLoop(sts[0].Block()), "offline frames stored as "+v+" held="+li.Held(sts[0]).String()+" (expected one append of all frames under sendBufferMu)")
+		appends := 0
+		for _, st := range sts {
+			v := Term(st.(*ssa.Store).Val)
+			if v == "nil" {
+				// the buffer may be emptied here only by sending what it held, ahead of the new packet and in the same
+				// call: the store is followed on every path by an enqueue that carries a slice of len(s.sendBuffer)
+				// elements in front
+				sent := false
+				for _, x := range CallsTo(Calls(fn), `\(\*sio\.Manager\)\.packet|\(\*sio\.packetQueue\)\.add`) {
+					_, older := wholePacketArg(x.Arg(0), "len(buffers)")
+					for _, o := range older {
+						if o == "len(s.sendBuffer)" {
+							if skip, _ := CanReachExitAvoiding(fn, st, func(in ssa.Instruction) bool { return in == x.Instr }); !skip {
+								sent = true
+							}
+						}
+					}
+				}
+				c.Ob("C02-D1", "sio.clientSocket._sendBuffers/buffer-emptied-only-by-sending", st.Pos(), sent && li.HoldsW(st, "s.sendBufferMu"), "s.sendBuffer is cleared without its frames being handed to the queue in front of the new packet (under sendBufferMu); held="+li.Held(st).String())
+				continue
+			}
+			appends++
+			c.Ob("C02-D1", "sio.clientSocket._sendBuffers/offline-append", st.Pos(), strings.HasPrefix(v, "append(s.sendBuffer, make(") && li.HoldsW(st, "s.sendBufferMu") && !inLoop(st.Block()), "offline frames stored as "+v+" held="+li.Held(st).String()+" (expected one append of all frames under sendBufferMu)")
+		}
+		if appends != 1 {
+			c.Ob("C02-D1", "sio.clientSocket._sendBuffers/offline-append", fn.Pos(), false, fmt.Sprintf("expected exactly one append to s.sendBuffer, found %d", appends))
 		}
 	}
 
